@@ -727,7 +727,12 @@ fn read_code<C: CodeVisitor>(
 
 					let (offset_delta, frame_data) = read_stack_map_frame(reader, pool, &mut labels)?;
 
-					offset += offset_delta + (if i == 0 { 0 } else { 1 });
+					// The offset of a frame is a bytecode offset, so it must fit into an u16 just like the code length does.
+					let next_offset = offset as u32 + offset_delta as u32 + (if i == 0 { 0 } else { 1 });
+					if next_offset > u16::MAX as u32 {
+						bail!("stack map frame {i} is at bytecode offset {next_offset}, which is out of bounds");
+					}
+					offset = next_offset as u16;
 
 					let label = labels.get_or_create(offset)?;
 
